@@ -221,25 +221,30 @@ class PandasModelBase(
         and / or over truth values that may be missing: three valued logic, as SQL and Polars
         compute it (False and missing is False, True or missing is True, else missing).
         """
-        decided = None  # positions settled by one operand: False for and, True for or
-        any_missing = None
-        for a in args:
-            missing = numpy.asarray(self.pd.isnull(a))
-            truth = numpy.where(missing, False, numpy.asarray(a, dtype=object)).astype(
-                bool
-            )
-            settles = numpy.logical_and(
-                numpy.logical_not(missing), numpy.logical_not(truth) if is_and else truth
-            )
-            decided = settles if decided is None else numpy.logical_or(decided, settles)
-            any_missing = (
-                missing if any_missing is None else numpy.logical_or(any_missing, missing)
-            )
-        res = numpy.where(decided, not is_and, is_and)
-        open_missing = numpy.logical_and(any_missing, numpy.logical_not(decided))
-        if numpy.any(open_missing):
-            res = res.astype(object)
-            res[open_missing] = None
+        if all(
+            [
+                isinstance(a, (bool, numpy.bool_)) or (getattr(a, "dtype", None) == bool)
+                for a in args
+            ]
+        ):
+            # plain truth values: nothing can be missing
+            res = args[0]
+            for a in args[1:]:
+                res = numpy.logical_and(res, a) if is_and else numpy.logical_or(res, a)
+            return res
+
+        def as_nullable(a):
+            # pandas' nullable boolean columns have the three valued & and | built in
+            if numpy.ndim(a) < 1:
+                return self.pd.NA if self.pd.isnull(a) else bool(a)
+            return self.pd.Series(a).astype("boolean")
+
+        res = as_nullable(args[0])
+        for a in args[1:]:
+            res = (res & as_nullable(a)) if is_and else (res | as_nullable(a))
+        if numpy.ndim(res) < 1:
+            # only constants met: a Python truth value (or None)
+            return None if self.pd.isnull(res) else bool(res)
         return res
 
     def _coalesce(self, a, b):
